@@ -77,11 +77,19 @@ def correspondence(ctx):
                 continue
             ctx.count(stream, key=canon, nontrivial=len(cons) >= 2)
             bad = None
-            for t in _variants(rng, rcls.scheme, texts):
+            try:
+                canon_s = str(VersionRange.from_string(canon, simplify=True, validate=True))
+            except Exception as e:  # noqa: BLE001
+                bad = (canon, "parsing the canonical text with simplify and validate raises %s: %s" % (type(e).__name__, e))
+            for t in ([] if bad else _variants(rng, rcls.scheme, texts)):
                 try:
                     r = VersionRange.from_string(t)
                     if str(r) != canon or not (r == base):
                         bad = (t, "canonical text %r differs from %r" % (str(r), canon))
+                        break
+                    r2 = VersionRange.from_string(t, simplify=True, validate=True)
+                    if str(r2) != canon_s:
+                        bad = (t, "parsed with simplify and validate: %r differs from %r (what the canonical spelling gives)" % (str(r2), canon_s))
                         break
                 except Exception as e:  # noqa: BLE001
                     bad = (t, "raises %s: %s" % (type(e).__name__, e))
@@ -99,6 +107,20 @@ def correspondence(ctx):
                              {"scheme": name, "variant": bad[0], "canonical": canon, "clause": bad[1],
                               "python": "from univers.version_range import VersionRange as R; print(str(R.from_string(%r)))" % bad[0]},
                              spec="identical canonical text")
+        # the match-all range
+        canon = "vers:%s/*" % rcls.scheme
+        ctx.count(stream, key=canon, nontrivial=False)
+        for t in _variants(rng, rcls.scheme, ["*"]):
+            try:
+                r = VersionRange.from_string(t)
+                out = None if str(r) == canon else "canonical text %r differs from %r" % (str(r), canon)
+            except Exception as e:  # noqa: BLE001
+                out = "raises %s: %s" % (type(e).__name__, e)
+            if out:
+                ctx.disagree(stream, canon, out, canon, True, {"scheme": name, "variant": t, "canonical": canon, "clause": out,
+                             "python": "from univers.version_range import VersionRange as R; print(str(R.from_string(%r)))" % t},
+                             spec="identical canonical text")
+                break
     _hash_seeds(ctx)
 
 
